@@ -1473,10 +1473,16 @@ class XsdAtomicRestriction(XsdAtomic):
             raise XMLSchemaValueError(msg % self.base_type)
 
         result = base_type.raw_decode(obj, validation, context)
-        if result is not None:
+        if result is not None and self.validators:
+            value = result
+            if isinstance(result, list) and isinstance(context, DecodeContext):
+                # The items of a decoded list are already converted for the output
+                # data (e.g. dates to strings): facets are checked on atomic values.
+                value = [self.get_atomic_value(x, context.namespaces) for x in result]
+
             for validator in self.validators:
                 try:
-                    validator(result)
+                    validator(value)
                 except XMLSchemaValidationError as err:
                     context.validation_error(validation, self, err)
 
